@@ -32,10 +32,14 @@ def check(run, prog, tier):
         "initial populations. Not decided: sign of populations, distance to the matrix exponential.")
     run.trusted_base = ["scipy.linalg.expm is the matrix exponential",
                         "qv/ta_front.py model of numpy.dot/diag/eye"]
+    run.rule("C17-E", "the propagation matrix and the populations are computed from the rate matrix and step in force (no exponential or decomposition kept across calls)", minimum=2)
+    from . import memorule
+    memorule.check(run, prog, "C17-E", ['quantarhei.qm.propagators.poppropagator.PopulationPropagator', 'quantarhei.qm.liouvillespace.rates.ratematrix.RateMatrix'],
+                   "the matrix returned after an edit of the rates is the exponential of the old ones")
     run.rule("C17-A", "set_rate keeps zero column sums and the assigned off-diagonal value (TA)", minimum=5)
     run.rule("C17-B", "short-exponential population steps: Taylor scheme, sum conserved iff columns sum to zero", minimum=9)
     run.rule("C17-C", "propagation matrix: identity start, matrix exponential defined for every rate matrix, recurrence, offset once", minimum=7)
-    run.rule("C17-D", "initial populations are not mutated", minimum=2)
+    run.rule("C17-D", "initial populations and the rate matrix are not mutated (also not through views of them)", minimum=6)
     rule_A(run, prog)
     rule_B(run, prog)
     rule_C(run, prog)
@@ -287,6 +291,32 @@ def rule_D(run, prog):
             dt = [k.value for k in c.keywords if k.arg == "dtype"] + list(c.args[1:2])
             detail = norm(dt[0]) if dt else "(default float64)"
             ok = (not dt) or detail in ("float", "numpy.float64", "REAL", "qr.REAL", "numpy.double", "'float64'")
+    # no method of the propagator writes into the rate matrix it was given or into an argument: the constructor keeps
+    # the caller's array (rate_matrix.data) without a copy, so a write into self.KK - also through numpy.asarray(),
+    # a slice or .T, which return the same storage - edits the caller's rates and every later result
+    from .. import arrays
+    cls = prog.cls(PP)
+    nchecked = 0
+    for nme, fn in sorted(cls.methods.items()):
+        if nme == "__init__":
+            continue
+        prog.consulted.add(fn.relpath)
+        params = [a.arg for a in fn.node.args.args if a.arg != "self"]
+        roots = {"self.KK"} | set(params)
+        al = arrays.aliases(fn.node, roots)
+        eff = arrays.inplace_effects(fn.node, al, roots={"self.KK"})
+        # writes into a parameter itself (not rebound first) count too
+        rebound = {t.id for n in walk_no_nested(fn.node) if isinstance(n, ast.Assign) for t in n.targets
+                   if isinstance(t, ast.Name) and t.id in params and not arrays._is_root(n.value, roots, al)}
+        eff += [e for e in arrays.inplace_effects(fn.node, set(params) - rebound) if e not in eff]
+        nchecked += 1
+        run.obligation("C17-D", fn.short, not eff, key="inputs-intact",
+                       message="%s writes in place into the rate matrix or an argument, or into an array that may share "
+                               "their storage (%s; aliases: %s): the caller's rates / populations are changed and later "
+                               "calls start from them" % (fn.short, [t for _, t in eff][:3], sorted(al)),
+                       loc=fn.loc(eff[0][0]) if eff else fn.loc(), sample={"method": fn.short, "aliases": sorted(al)})
+    if nchecked < 4:
+        raise AnalysisError("C17-D: only %d methods of the population propagator found" % nchecked)
     run.obligation("C17-D", "PopulationPropagator._propagate_short_exp", ok, key="fresh-float-result",
                    message="the result array must be freshly allocated per call as a floating-point array, "
                            "independent of the dtype of the initial populations (found dtype %s)" % detail, loc=f.loc(),
